@@ -20,6 +20,16 @@ VERIF = os.path.dirname(os.path.dirname(os.path.abspath(__file__)))
 ALL = [f"C{i:02d}" for i in range(1, 19)]
 
 
+def git_wt(*args):
+    """git worktree bookkeeping, one process at a time (add / remove / prune from concurrent evaluations race
+    on /repo/.git/worktrees)."""
+    import fcntl  # noqa: PLC0415
+
+    with open("/tmp/vf-worktree.lock", "w") as lk:
+        fcntl.flock(lk, fcntl.LOCK_EX)
+        return sh(["git", "-C", "/repo", "worktree", *args])
+
+
 def sh(cmd, **kw):
     p = subprocess.run(cmd, capture_output=True, text=True, errors="replace", **kw)
     return p.returncode, (p.stdout or "") + (p.stderr or "")
@@ -32,7 +42,7 @@ def run_case(kind, d, tier):
     os.rmdir(wt)
     res = {"kind": kind, "name": name}
     try:
-        rc, out = sh(["git", "-C", "/repo", "worktree", "add", "-q", wt, "HEAD"])
+        rc, out = git_wt("add", "-q", wt, "HEAD")
         if rc:
             res["error"] = out[-300:]
             return res
@@ -70,9 +80,8 @@ def run_case(kind, d, tier):
     except Exception as ex:  # noqa: BLE001
         res["error"] = repr(ex)
     finally:
-        sh(["git", "-C", "/repo", "worktree", "remove", "--force", wt])
+        git_wt("remove", "--force", wt)
         shutil.rmtree(wt, ignore_errors=True)
-        sh(["git", "-C", "/repo", "worktree", "prune"])
     return res
 
 
